@@ -32,7 +32,7 @@ impl Out {
 }
 
 pub fn scratch_dir() -> PathBuf {
-    let p = PathBuf::from("/verif/.build/scratch");
+    let p = PathBuf::from(format!("{}/.build/scratch", crate::common::verif_dir()));
     let _ = std::fs::create_dir_all(&p);
     p
 }
